@@ -229,6 +229,15 @@ pub struct Model {
     pub fresh_out: BTreeSet<usize>,
     /// Accepted (not late) success/failure preconfirmations not yet reconciled: tx -> heights.
     pub preconf: BTreeMap<usize, BTreeSet<u32>>,
+    /// Heights at which the worker still books a tentative preconfirmation of a
+    /// transaction, including transactions skipped since (a skip does not clear
+    /// the worker's bookkeeping, so their tentatively spent inputs stay held
+    /// until that height is reconciled). Only used to justify refusals.
+    pub booked: BTreeMap<usize, BTreeSet<u32>>,
+    /// Handed out again (extracted) while an older accepted preconfirmation of
+    /// the same transaction was still unreconciled: the newer hand-out keeps
+    /// its inputs held when the older preconfirmation is rolled back.
+    pub rehanded: BTreeSet<usize>,
     /// Pooled transactions one of whose pooled descendants was taken out of the
     /// pool by a preconfirmation while they stayed (used only to name the
     /// witness class of a C19 violation).
@@ -1170,6 +1179,9 @@ impl Subject for PoolSubject {
                     found.push((Prop::C18, v));
                 }
                 for &x in &out {
+                    if w.m.preconf.contains_key(&x) {
+                        w.m.rehanded.insert(x);
+                    }
                     w.m.in_flight.insert(x);
                     w.m.fresh_out.insert(x);
                 }
@@ -1208,14 +1220,22 @@ impl Subject for PoolSubject {
                     }
                     if inblock.contains(&t) {
                         confirmed.push(t);
+                    } else if w.m.rehanded.contains(&t) {
+                        // rolled back by the worker, but handed out again since: still in flight,
+                        // nothing is demanded for it
                     } else {
                         rolled_back.push(t);
                         w.m.in_flight.remove(&t);
                     }
                 }
+                for hs in w.m.booked.values_mut() {
+                    hs.retain(|h| *h > height);
+                }
+                w.m.booked.retain(|_, hs| !hs.is_empty());
                 for t in &inblock {
                     w.m.in_flight.remove(t);
                     w.m.preconf.remove(t);
+                    w.m.rehanded.remove(t);
                 }
                 w.m.fresh_out.clear();
                 if inblock.iter().any(|t| before.contains(t)) {
@@ -1297,11 +1317,11 @@ impl Subject for PoolSubject {
                             let unjustified = match &e {
                                 Error::UtxoInputWasAlreadySpent(x) => {
                                     w.chain.read(|d| d.coins.contains_key(x))
-                                        && !w.m.in_flight.iter().any(|&s| s != t && self.tx(s).coin_inputs.contains(x))
+                                        && !w.m.in_flight.iter().chain(w.m.booked.keys()).any(|&s| s != t && self.tx(s).coin_inputs.contains(x))
                                 }
                                 Error::MessageInputWasAlreadySpent(x) => {
                                     w.chain.read(|d| d.messages.contains_key(x))
-                                        && !w.m.in_flight.iter().any(|&s| s != t && self.tx(s).msg_inputs.contains(x))
+                                        && !w.m.in_flight.iter().chain(w.m.booked.keys()).any(|&s| s != t && self.tx(s).msg_inputs.contains(x))
                                 }
                                 Error::InputValidation(InputValidationError::DuplicateTxId(_)) => true,
                                 _ => false,
@@ -1420,6 +1440,7 @@ impl Subject for PoolSubject {
                                 }
                             }
                             w.m.preconf.entry(t).or_default().insert(height);
+                            w.m.booked.entry(t).or_default().insert(height);
                             w.m.in_flight.insert(t);
                             info.preconf_committed = Some(t);
                         }
@@ -1432,6 +1453,7 @@ impl Subject for PoolSubject {
                             // an explicit skip supersedes earlier preconfirmations of the same
                             // transaction: nothing is demanded from the later reconciliation
                             w.m.preconf.remove(&t);
+                            w.m.rehanded.remove(&t);
                             info.skip_target = Some(t);
                         }
                     }
@@ -1594,8 +1616,8 @@ impl Subject for PoolSubject {
         });
         lines.push(chain);
         lines.push(format!(
-            "model in_flight={:?} fresh={:?} preconf={:?} stale={:?}",
-            w.m.in_flight, w.m.fresh_out, w.m.preconf, w.m.stale_counters
+            "model in_flight={:?} fresh={:?} preconf={:?} booked={:?} rehanded={:?} stale={:?}",
+            w.m.in_flight, w.m.fresh_out, w.m.preconf, w.m.booked, w.m.rehanded, w.m.stale_counters
         ));
         lines.join("\n").into_bytes()
     }
